@@ -1,5 +1,6 @@
 import FiberModel.DriverUtil
 import FiberModel.C19.Spec
+import FiberModel.Generated.C19Facts
 /-
 Driver for C19. Case fields (after the id):
   allowOrigins(hexlist) funcSet(0/1) funcAllows(hexlist) allowMethods allowHeaders expose(hexlists)
@@ -39,7 +40,8 @@ def parseResp (s : String) : Option Response := do
          maxAge := ← (get "ma").bind parseOpt, expose := ← (get "ex").bind parseOpt,
          privateNet := ← flag "pn" }
 
-def defaultMethods : List Bytes := [b "GET", b "POST", b "HEAD", b "PUT", b "DELETE", b "PATCH"]
+/-- `ConfigDefault.AllowMethods`, regenerated from /repo on every run. -/
+def defaultMethods : List Bytes := C19.Facts.defaultAllowMethods
 
 def handleCase (f : List String) : Except String Verdict := do
   match f with
